@@ -110,6 +110,31 @@ CLAIMED['C15'] = dict(
     technique='Coq proof (filters/permutations, induction on operation sequences) + bounded-exhaustive differential correspondence + law oracle',
 )
 
+CLAIMED['C07'] = dict(
+    category='proof',
+    text='Coq theorems over token lists: the parser model is sound and complete for an inductive grammar of the documented PEG plus its three robustness '
+         'extensions (deterministic split), and is proved EQUAL — acceptance, tree, unread tokens and line/column in one equation — to an independent fuel-free '
+         'pushdown recogniser, which is the oracle run on the implementation\'s own tokens; for ALL token lists and ALL strings parse, iterparse and parse_triples '
+         'end in a result or DecodeErr within the model\'s fuel (termination + every next() guarded); a parse error sits at the first token after which no '
+         'derivation can continue, or at the end of the last token ((0,0) on empty input).',
+    design_ref='DESIGN.md §5 C07',
+    note=TB + ' theorems are about token lists (that the lexer emits the documented tokens is C08); the parse_triples error POSITION is checked by correspondence and a '
+         'Python token-class automaton only; the 200-level bound is CPython\'s stack: the check parses depths 1..200 in four shapes without RecursionError; '
+         'quick = all strings <= 4 over 16 symbols, all token-type sequences <= 6, random noisy/long/Unicode/nested texts (0.62M comparisons).',
+    technique='Coq proof (parser = inductive grammar = pushdown recogniser; fuel sufficiency) + bounded-exhaustive differential correspondence + extracted-recogniser oracle',
+)
+CLAIMED['C19'] = dict(
+    category='proof',
+    text='Coq theorem at STRING level (through the TRIPLE_RE lexer model): for every non-empty list of well-formed conjunction triples and both line styles '
+         'parse_triples(format_triples(ts, indent)) = ts, every role keeps its colon, and every comma / caret spacing variant parses to the same list '
+         '(over token sequences, plus the eight test-suite variants by computation); boundary cases (comma in source, newline in string, anonymous role) are '
+         'stated as rejected examples.',
+    design_ref='DESIGN.md §5 C19',
+    note=TB + ' wf_conj_triple: source without comma, no symbol starting with "#", role with exactly one leading colon and a non-empty name, non-None target; quoted '
+         'strings may contain anything but CR/LF (lex splits lines first); numbers are compared by str() text; quick = 25k lists x indents x spacing variants.',
+    technique='Coq proof (lexing lemmas for the written text, induction on the triple list) + differential correspondence + round-trip oracle on the implementation',
+)
+
 UNDER_CONSTRUCTION = {}
 
 
